@@ -69,6 +69,50 @@ func runC12(c *Ctx) {
 		}
 		// in-repository binary search: find `cmp(vs[mid], target) OP 0` whose true edge assigns high = mid
 		var res, why string
+		// idiom: return sort.Search(len(vs), func(i int) bool { return cmp(vs[i], target) OP 0 }) — the smallest index where the predicate holds
+		allInstrs(callee, func(in ssa.Instruction) {
+			call, ok := in.(*ssa.Call)
+			if !ok || res != "" {
+				return
+			}
+			sc := call.Call.StaticCallee()
+			if sc == nil || sc.Pkg == nil || sc.Pkg.Pkg.Path() != "sort" || sc.Name() != "Search" || len(call.Call.Args) != 2 {
+				return
+			}
+			returned := false
+			for _, r := range referrersOf(call) {
+				if _, ok := r.(*ssa.Return); ok {
+					returned = true
+				}
+			}
+			mc, ok := call.Call.Args[1].(*ssa.MakeClosure)
+			if !ok || !returned {
+				return
+			}
+			pred := mc.Fn.(*ssa.Function)
+			allInstrs(pred, func(in2 ssa.Instruction) {
+				ret, ok := in2.(*ssa.Return)
+				if !ok || len(ret.Results) != 1 {
+					return
+				}
+				bo, ok := ret.Results[0].(*ssa.BinOp)
+				if !ok || !isConstInt(bo.Y, 0) {
+					return
+				}
+				if inner, ok := bo.X.(*ssa.Call); !ok || inner.Call.StaticCallee() != nil {
+					return // must be a call of the (captured) comparison function
+				}
+				switch bo.Op {
+				case token.GTR:
+					res, why = "Right", "sort.Search: first index whose element is greater than the target"
+				case token.GEQ:
+					res, why = "Left", "sort.Search: first index whose element is not less than the target"
+				}
+			})
+		})
+		if res != "" {
+			return res, why
+		}
 		allInstrs(callee, func(in ssa.Instruction) {
 			iff, ok := in.(*ssa.If)
 			if !ok {
